@@ -197,6 +197,33 @@ def mapping_conflicts(out, tmp, only=None):
                 return [str(m.bpseq), m.dot_bracket, m.extended_dot_bracket, m.all_dot_brackets]
 
             guarded(out, key + ":mapping", fn2)
+    # the structure twice in one file, as chain B and - moved 40 A away - as chain b: competing partners that differ in the CASE of the chain name only
+    base = [dict(a, model=1) for a in corpus.table("1A1T_1_B.cif") if a["altloc"] in (None, "A")]
+    t3 = [dict(a) for a in base]
+    for a in base:
+        b = dict(a, chain=a["chain"].lower())
+        b["x"] = "%.3f" % (float(a["x"]) + 40.0)
+        t3.append(b)
+    for k, a in enumerate(t3):
+        a["serial"] = k + 1
+    p3 = os.path.join(tmp, "1A1T-Bb.cif")
+    with open(p3, "w") as f:
+        f.write(enumio.emit_cif(t3))
+    with open(p3) as f:
+        s3 = read_3d_structure(f, 1)
+    nts3 = [r for r in s3.residues if r.is_nucleotide]
+    n = len(nts3) // 2
+    for combo in ([(0, 19), (0, 19 + n)], [(0, 19 + n), (0, 19)], [(0, 19), (0, 19 + n), (1, 18)], [(n, 19), (0, 19), (n, 19 + n)], [(1, 18 + n), (1, 18), (0, 19 + n), (0, 19)]):
+        key = "3d:mapping-case:" + "-".join("%d.%d" % c for c in combo)
+        if only and not key.startswith(only):
+            continue
+
+        def fn3(combo=combo):
+            bps = [BasePair(Residue(nts3[i].label, nts3[i].auth), Residue(nts3[j].label, nts3[j].auth), LeontisWesthof.cWW, None) for i, j in combo]
+            m = Mapping2D3D(s3, bps, [], False)
+            return [str(m.bpseq), m.dot_bracket, m.extended_dot_bracket, m.all_dot_brackets]
+
+        guarded(out, key + ":mapping", fn3)
     for r in (2, 3, 4):
         for combo in itertools.combinations(idx, r):
             key = "3d:mapping:" + "-".join("%d.%d" % c for c in combo)
